@@ -121,6 +121,26 @@ func allowed(allow []string, name, prefix string) bool {
 	return false
 }
 
+// requestMsg builds a request message the way the wire does (by decoding its JSON text), so that
+// the harness does not depend on how the library represents parameters internally.
+func requestMsg(method, rawParams string) *jsonrpc2.Message {
+	mj, _ := json.Marshal(method)
+	text := fmt.Sprintf(`{"jsonrpc":"2.0","id":1,"method":%s`, mj)
+	if rawParams != "(absent)" {
+		text += `,"params":` + rawParams
+	}
+	text += "}"
+	var m jsonrpc2.Message
+	if err := json.Unmarshal([]byte(text), &m); err != nil || m.Request == nil {
+		// a request the library cannot even decode: hand the dispatcher an empty request with the
+		// method name, which it must answer like any other (the wire-level behaviour is C15's)
+		var m2 jsonrpc2.Message
+		json.Unmarshal([]byte(fmt.Sprintf(`{"jsonrpc":"2.0","id":1,"method":%s}`, mj)), &m2)
+		return &m2
+	}
+	return &m
+}
+
 func c16Instrumented(ctx *Ctx, i int, rng *rand.Rand) {
 	recv := &ProbeService{}
 	table := methodTable(recv)
@@ -167,10 +187,7 @@ func c16Instrumented(ctx *Ctx, i int, rng *rand.Rand) {
 	}
 	probe := func(name, raw, coqParams string) {
 		before := atomic.LoadInt64(&recv.ran)
-		msg := &jsonrpc2.Message{Request: &jsonrpc2.Request{Method: name}, ID: json.RawMessage("1"), Version: "2.0"}
-		if raw != "(absent)" {
-			msg.Request.Params = json.RawMessage(raw)
-		}
+		msg := requestMsg(name, raw)
 		resp := srv.Handle(context.Background(), msg)
 		ran := atomic.LoadInt64(&recv.ran) - before
 		code := 0
@@ -300,10 +317,9 @@ func c16Production(ctx *Ctx, i int) {
 					if len(m.Args) == 0 && raw == "(absent)" {
 						continue // would run the method
 					}
-					msg := &jsonrpc2.Message{Request: &jsonrpc2.Request{Method: name}, ID: json.RawMessage("1"), Version: "2.0"}
+					msg := requestMsg(name, raw)
 					cp := "PAbsent"
 					if raw != "(absent)" {
-						msg.Request.Params = json.RawMessage(raw)
 						cp = "(PArray [JString; JString; JString; JString; JString; JString])"
 					}
 					resp := srv.Handle(context.Background(), msg)
